@@ -28,6 +28,13 @@ OUTPUTS = {
     "tmc_pol": dict(cell={"scheme": "ZM-VFNS", "process": "NC", "pto": 1, "tmc": 1, "obscard": {"PolarizationDIS": -0.7, "NCPositivityCharge": "up"}, "grid": "L7"}, obs={"F2_total": [("x", 0.3, 5.0)], "g1_light": [("x", 0.5, 5.0)]}),
     "only_empty": dict(cell={"scheme": "ZM-VFNS", "process": "EM", "pto": 0}, obs={"F2_total": []}),
     "xs_all": dict(cell={"scheme": "ZM-VFNS", "process": "NC", "pto": 0, "projectile": "positron"}, obs={k + "_total": [("y", 0.3, 30.0, 0.4)] for k in ["XSHERANC", "XSHERANCAVG", "XSHERACC", "XSCHORUSCC", "XSNUTEVCC", "XSNUTEVNU", "FW", "F1", "g5", "XSFPFCC"]}),
+    # kinematic lists that are long, not sorted in Q2 (cyclic disorder, ties in Q2 with different x, a repeated point): the position of every point must survive
+    "unsorted": dict(cell={"scheme": "ZM-VFNS", "process": "NC", "pto": 1}, obs={
+        "F2_total": [("x", 0.1, 30.0), ("x", 0.3, 10.0), ("x", 0.05, 20.0)],
+        "FL_light": [("x", 0.3, 4.0), ("x", 0.05, 1.5), ("x", 0.3, 3.0), ("x", 0.01, 2.0), ("x", 0.3, 4.0)],
+        "XSHERANC_total": [("y", 0.3, 50.0, 0.4), ("y", 0.01, 8.0, 0.9), ("y", 0.1, 50.0, 0.1), ("y", 0.2, 20.0, 0.5), ("y", 0.02, 8.0, 0.3), ("y", 0.5, 90.0, 0.7), ("y", 0.05, 12.0, 0.2)],
+        "F3_total": [("x", 0.6, 90.0), ("x", 0.3, 30.0), ("x", 0.1, 10.0), ("x", 0.01, 5.0)],
+    }),
     "sv_off": dict(cell={"scheme": "FFNS4", "process": "EM", "pto": 2, "theory": {"RenScaleVar": False, "FactScaleVar": False}}, obs={"FL_bottom": [("x", 0.01, 300.0)]}),
 }
 OPS = ["yaml", "tar", "yamlfile"]
@@ -39,7 +46,7 @@ RULE = (
     "non-trivial = word length >= 2 or the output has a special shape; distinct_outcomes = distinct typed skeletons reached"
 )
 ASSUMPTIONS = [
-    "outputs are the 11 listed ones (incl. one with all ten cross-section kinds) on grids G6/L7; words up to length 3 (quick: letters yaml,tar) / 4 (thorough: yaml,tar,yamlfile up to 3, yaml,tar at 4)",
+    "outputs are the 12 listed ones (incl. one with 3-7 points per observable in cyclic Q2 disorder with ties and a repeated point) (incl. one with all ten cross-section kinds) on grids G6/L7; words up to length 3 (quick: letters yaml,tar) / 4 (thorough: yaml,tar,yamlfile up to 3, yaml,tar at 4)",
     "cards are compared by value after normalising numpy arrays/scalars and tuples to lists/builtins (the serialisation is not required to preserve container types of the card)",
     "a None observable is produced by assigning None after the run (the runner itself never produces one)",
 ]
